@@ -46,9 +46,10 @@ type global struct {
 }
 
 var (
-	fset *token.FileSet
-	info *types.Info
-	pkg  *types.Package
+	fset      *token.FileSet
+	info      *types.Info
+	pkg       *types.Package
+	funcDecls = map[*types.Func]*ast.FuncDecl{}
 )
 
 func die(f string, a ...interface{}) {
@@ -108,6 +109,15 @@ func main() {
 		die("package zygo does not type-check (go/types, source importer):\n  %s", strings.Join(terrs, "\n  "))
 	}
 
+	for _, f := range files {
+		for _, d := range f.Decls {
+			if fd, ok := d.(*ast.FuncDecl); ok {
+				if fn, ok := info.Defs[fd.Name].(*types.Func); ok {
+					funcDecls[fn] = fd
+				}
+			}
+		}
+	}
 	var sites []site
 	for _, f := range files {
 		fname := filepath.Base(fset.Position(f.Pos()).Filename)
@@ -245,6 +255,7 @@ type effects struct {
 	exits      []string        // return / break / panic / goto out of the walk
 	exitConst  bool            // every exit is `return <constants>`
 	appends    map[string]bool // slices appended to (printed expression)
+	appendElem []ast.Expr      // the elements appended (nil entry: append(s, xs...))
 	fills      []string        // maps assigned into
 	fillDirect bool            // every fill uses exactly the walk's key variable as index
 	deletes    int
@@ -293,10 +304,15 @@ func classify(rs *ast.RangeStmt, following []ast.Stmt, label string) site {
 			for k := range ef.appends {
 				sl = k
 			}
-			if how := sortedNext(sl, following); how != "" {
-				s.class = "SortedAfter"
+			if how, call := sortedNext(sl, following); how != "" {
 				s.sortedWith = how
-				add("collects into %s, next use of %s is %s", sl, sl, how)
+				plain, desc := comparator(how, call, keyObj, ef.appendElem)
+				if plain {
+					s.class = "SortedAfter"
+				} else {
+					s.class = "SortedCustomComparator"
+				}
+				add("collects into %s, next use of %s is %s; comparator: %s", sl, sl, how, desc)
 				break
 			}
 		}
@@ -325,37 +341,189 @@ func classify(rs *ast.RangeStmt, following []ast.Stmt, label string) site {
 }
 
 // sortedNext: the first following statement that mentions the slice must be a sort call on it.
-func sortedNext(sl string, following []ast.Stmt) string {
+func sortedNext(sl string, following []ast.Stmt) (string, *ast.CallExpr) {
 	for _, st := range following {
 		if !mentions(st, sl) {
 			continue
 		}
 		es, ok := st.(*ast.ExprStmt)
 		if !ok {
-			return ""
+			return "", nil
 		}
 		call, ok := es.X.(*ast.CallExpr)
 		if !ok {
-			return ""
+			return "", nil
 		}
 		sel, ok := call.Fun.(*ast.SelectorExpr)
 		if !ok {
-			return ""
+			return "", nil
 		}
 		pk, ok := sel.X.(*ast.Ident)
 		if !ok {
-			return ""
+			return "", nil
 		}
 		if pn, ok := info.Uses[pk].(*types.PkgName); !ok || pn.Imported().Path() != "sort" {
-			return ""
+			return "", nil
 		}
 		switch sel.Sel.Name {
 		case "Strings", "Ints", "Float64s", "Slice", "SliceStable", "Sort", "Stable":
-			return "sort." + sel.Sel.Name
+			return "sort." + sel.Sel.Name, call
 		}
-		return ""
+		return "", nil
 	}
-	return ""
+	return "", nil
+}
+
+// comparator decides whether the order used by the sort call is the plain `<` on a string or
+// integer that is the walk's KEY (keys of one map are pairwise distinct, so no two collected
+// items tie -- the side condition of sorted_walk_indep).  Anything else (a Less method or a
+// sort.Slice function that is not literally `x[i].F < x[j].F`, a compared field that is not
+// filled with the walk key, sort.Float64s) is a custom comparator.
+func comparator(how string, call *ast.CallExpr, keyObj types.Object, elems []ast.Expr) (bool, string) {
+	if call == nil || len(call.Args) == 0 {
+		return false, "no argument"
+	}
+	var field string // "" = the element itself
+	var desc string
+	switch how {
+	case "sort.Strings", "sort.Ints":
+		desc = how + " (plain < on the element)"
+	case "sort.Float64s":
+		return false, "sort.Float64s (NaN ties)"
+	case "sort.Sort", "sort.Stable":
+		tv, ok := info.Types[call.Args[0]]
+		if !ok || tv.Type == nil {
+			return false, "argument without type"
+		}
+		obj, _, _ := types.LookupFieldOrMethod(tv.Type, true, pkg, "Less")
+		fn, ok := obj.(*types.Func)
+		if !ok {
+			return false, "no Less method found for " + tv.Type.String()
+		}
+		fd := funcDecls[fn]
+		if fd == nil || fd.Body == nil || fd.Recv == nil || len(fd.Recv.List) == 0 || len(fd.Recv.List[0].Names) == 0 {
+			return false, "Less of " + types.TypeString(tv.Type, types.RelativeTo(pkg)) + " is not declared in package zygo"
+		}
+		name := types.TypeString(tv.Type, types.RelativeTo(pkg)) + ".Less"
+		f, why := plainLess(fd.Body, fd.Recv.List[0].Names[0].Name, fd.Type.Params)
+		if why != "" {
+			return false, name + ": " + why
+		}
+		field, desc = f, name+" is plain < on ["+f+"]"
+	case "sort.Slice", "sort.SliceStable":
+		if len(call.Args) != 2 {
+			return false, "unexpected arguments"
+		}
+		fl, ok := call.Args[1].(*ast.FuncLit)
+		if !ok {
+			return false, "the less function is not a literal"
+		}
+		f, why := plainLess(fl.Body, types.ExprString(call.Args[0]), fl.Type.Params)
+		if why != "" {
+			return false, how + " function: " + why
+		}
+		field, desc = f, how+" function is plain < on ["+f+"]"
+	default:
+		return false, how
+	}
+	// the compared thing must be the walk key
+	if keyObj == nil {
+		return false, desc + ", but the walk has no key variable"
+	}
+	if len(elems) == 0 {
+		return false, desc + ", but nothing is appended"
+	}
+	for _, e := range elems {
+		if e == nil {
+			return false, desc + ", but elements are appended with ..."
+		}
+		if field == "" {
+			if objOf(e) != keyObj {
+				return false, desc + ", but the appended element " + types.ExprString(e) + " is not the walk key"
+			}
+			continue
+		}
+		if u, ok := e.(*ast.UnaryExpr); ok && u.Op == token.AND {
+			e = u.X
+		}
+		cl, ok := e.(*ast.CompositeLit)
+		if !ok {
+			return false, desc + ", but the appended element " + types.ExprString(e) + " is not a composite literal"
+		}
+		found := false
+		for _, el := range cl.Elts {
+			kv, ok := el.(*ast.KeyValueExpr)
+			if !ok {
+				continue
+			}
+			if id, ok := kv.Key.(*ast.Ident); ok && id.Name == field {
+				if objOf(kv.Value) == keyObj {
+					found = true
+				} else {
+					return false, desc + ", but field " + field + " is filled with " + types.ExprString(kv.Value) + ", not with the walk key"
+				}
+			}
+		}
+		if !found {
+			return false, desc + ", but field " + field + " is not filled with the walk key"
+		}
+	}
+	return true, desc + " = the walk key"
+}
+
+// plainLess: the body must be exactly `return base[i].F < base[j].F` (F a possibly empty field
+// path, i and j the two parameters in this order) on strings or integers.  Returns F.
+func plainLess(body *ast.BlockStmt, base string, params *ast.FieldList) (string, string) {
+	var pn []string
+	for _, f := range params.List {
+		for _, n := range f.Names {
+			pn = append(pn, n.Name)
+		}
+	}
+	if len(pn) != 2 {
+		return "", "not two parameters"
+	}
+	if len(body.List) != 1 {
+		return "", "body is not a single return statement"
+	}
+	rt, ok := body.List[0].(*ast.ReturnStmt)
+	if !ok || len(rt.Results) != 1 {
+		return "", "body is not a single return statement"
+	}
+	be, ok := rt.Results[0].(*ast.BinaryExpr)
+	if !ok || be.Op != token.LSS {
+		return "", "result is not an `x < y` expression: " + types.ExprString(rt.Results[0])
+	}
+	side := func(e ast.Expr, idx string) (string, bool) {
+		path := []string{}
+		for {
+			if se, ok := e.(*ast.SelectorExpr); ok {
+				path = append([]string{se.Sel.Name}, path...)
+				e = se.X
+				continue
+			}
+			break
+		}
+		ix, ok := e.(*ast.IndexExpr)
+		if !ok || types.ExprString(ix.X) != base || types.ExprString(ix.Index) != idx {
+			return "", false
+		}
+		return strings.Join(path, "."), true
+	}
+	fx, okx := side(be.X, pn[0])
+	fy, oky := side(be.Y, pn[1])
+	if !okx || !oky || fx != fy {
+		return "", "operands are not " + base + "[" + pn[0] + "].F and " + base + "[" + pn[1] + "].F: " + types.ExprString(be)
+	}
+	tv, ok := info.Types[be.X]
+	if !ok {
+		return "", "operand without type"
+	}
+	b, ok := tv.Type.Underlying().(*types.Basic)
+	if !ok || b.Info()&(types.IsString|types.IsInteger) == 0 {
+		return "", "compared values are neither strings nor integers"
+	}
+	return fx, ""
 }
 
 func mentions(n ast.Node, name string) bool {
@@ -492,6 +660,10 @@ func scan(n ast.Node, rs *ast.RangeStmt, label string, depth int, keyObj types.O
 						if id, ok := c.Fun.(*ast.Ident); ok && id.Name == "append" && len(c.Args) > 0 &&
 							types.ExprString(c.Args[0]) == types.ExprString(l) && !declaredInside(l) {
 							ef.appends[types.ExprString(l)] = true
+							ef.appendElem = append(ef.appendElem, c.Args[1:]...)
+							if c.Ellipsis.IsValid() {
+								ef.appendElem = append(ef.appendElem, nil) // append(s, xs...): elements unknown
+							}
 							continue
 						}
 					}
